@@ -33,6 +33,11 @@ func VerifChunkReader(data []byte, chunks []int) io.Reader {
 	return &verifChunkReader{data: data, chunks: chunks}
 }
 
+// as VerifChunkReader, the last chunk arriving together with io.EOF
+func VerifChunkReaderEndWithData(data []byte, chunks []int) io.Reader {
+	return &verifChunkReader{data: data, chunks: chunks, endWithData: true}
+}
+
 func VerifIsReadError(err error) bool { return verifIsReadError(err) }
 
 // the reference instant of the deprecated frame.Writer message path
